@@ -745,6 +745,31 @@ fn factory_cases(ctx: &Arc<Ctx>) {
 			}
 		}
 	}
+	// nested sources keep their written order even when an earlier one takes longer to open than a later one
+	{
+		let mk = |tag: &str, yields: u8| {
+			let mut t = TileMap::new();
+			t.insert((0, 0, 0), format!("tile of {tag}").into_bytes());
+			MemSource::new(tag, t, TileFormat::BIN, TileCompression::Uncompressed).with_yields(yields)
+		};
+		for delays in [[3u8, 0, 0], [0, 3, 0], [0, 0, 3], [3, 2, 0], [0, 2, 3], [2, 0, 1]] {
+			let fac3 = pipeline::factory(vec![mk("first", delays[0]), mk("second", delays[1]), mk("third", delays[2])], &work.0);
+			for (list, want) in [(vec![0usize, 1, 2], "first"), (vec![2, 1, 0], "third"), (vec![1, 2], "second"), (vec![1, 0], "second")] {
+				let vpl = format!("from_overlayed [ {} ]", list.iter().map(|i| format!("from_container filename=\"mem:{i}\"")).collect::<Vec<_>>().join(", "));
+				ctx.eval();
+				let case = json!({"kind": "factory-nested-order", "vpl": vpl, "open_delays": delays});
+				match pipeline::build_op(&rt, &fac3, &vpl) {
+					Err(e) => ctx.violation("a valid pipeline cannot be built", &format!("{vpl}: {e}"), case),
+					Ok(op) => {
+						let got = catch(|| rt.block_on(op.get_tile_data(&TileCoord3 { x: 0, y: 0, z: 0 }))).ok().and_then(|r| r.ok()).flatten().map(|b| String::from_utf8_lossy(b.as_slice()).to_string());
+						if got.as_deref() != Some(&format!("tile of {want}")[..]) {
+							ctx.violation("the built pipeline does not keep nested sources in the written order", &format!("{vpl} with open delays {delays:?}: the overlay answers {got:?}, the first listed source is '{want}'"), case);
+						}
+					}
+				}
+			}
+		}
+	}
 	ctx.outcome_n("factory: valid pipelines", valid.len() as u64);
 	ctx.outcome_n("factory: invalid pipelines", invalid.len() as u64);
 	ctx.extra("factory_not_asserted", json!("unknown parameter names and non-boolean text for boolean flags are silently ignored by the implementation; the statement's 'mistyped' is read as 'wrong type for a typed value', so these are not judged"));
@@ -754,7 +779,7 @@ pub fn run(ctx: Arc<Ctx>) {
 	ctx.rule(
 		"positive: syntax trees (pipelines of 1..3 of 12 node shapes, 0..2 nested sources from 5 nested pipelines incl. a second nesting level) rendered canonically and with every 1 deviation (whitespace variant at each optional site / quoting a bare value) and every 2 deviations for the first trees; \
 		 differential: every string of length <= 6 (quick) / <= 7 (thorough) over the alphabet a 1 k = \" \\ [ ] , | space plus all single-character deletions/insertions of two valid texts, against a reference recursive-descent parser of the documented grammar (constructs the documentation is silent about are not judged); \
-		 factory: valid texts; invalid texts = hand-picked ones + every invalid node (unknown names, missing / out-of-range / mistyped values, a bracketed list of 0, 2 entries where one value is expected, for every scalar parameter of every operation) x every position (after the source, after a filter that keeps tiles, after filters that leave no tile, before a valid node, nested in a source list). non-trivial = trees with nesting or several operations + accepted differential strings",
+		 factory: valid texts; invalid texts = hand-picked ones + every invalid node (unknown names, missing / out-of-range / mistyped values, a bracketed list of 0, 2 entries where one value is expected, for every scalar parameter of every operation) x every position (after the source, after a filter that keeps tiles, after filters that leave no tile, before a valid node, nested in a source list). nested source lists whose sources take different times to open keep the written order. non-trivial = trees with nesting or several operations + accepted differential strings",
 	);
 	ctx.assume("the reference parser encodes the documented grammar: identifier = letter (letter|digit|_|-)*, bare value = (letter|digit|.|-|_)+, quoted value with escapes \\\\ \\\" \\n \\t, list in brackets with commas, sources in brackets separated by commas, operations separated by |, whitespace = space/tab/CR/LF; undocumented: repeated keys, empty lists, trailing separators, empty quoted strings");
 	positive_space(&ctx);
